@@ -213,25 +213,26 @@ CHECKS = {
 # stages added while the checks were strengthened against seeded changes (DESIGN.md 0.6); appended to the level text
 EXTRA = {
     'C01': ' Streams beside the bbb fixture: a text track without tfdt boxes, an audio file as timing reference, fragments numbered '
-           '1, 3, 5, ...; explicit starts with UTC offsets and fractional seconds; field-width boundary instants (2^31..2^33 ticks).',
+           '1, 3, 5, ...; explicit starts with UTC offsets and fractional seconds; field-width boundary instants (2^31..2^33 ticks). Event schedules that begin inside the window, off the segment grid.',
     'C02': ' Streams beside the bbb fixture: a text track without tfdt boxes, an audio file as timing reference (non-integral loop '
            'length in the other tracks\' ticks), fragments numbered 1, 3, 5, ...; field-width boundary instants.',
-    'C03': ' The walker also reports boxes whose syntax (version / flags) needs more bytes than the box has.',
+    'C03': ' The walker also reports boxes whose syntax (version / flags) needs more bytes than the box has. A server error in place of a stored segment requested by its own number / time is a violation (large segments included).',
     'C05': ' Young streams at sub-second instants, a multi-period stream with a clear-only subtitle track under DRM selections, two dubs '
            'on one track id, hostile strings with "$"; the document with the hostile strings is itself validated.',
-    'C06': ' A stream stored with top-level free padding (after moov, between fragments, at the end of the file).',
+    'C06': ' A stream stored with top-level free padding (after moov, between fragments, at the end of the file). The padded stream also has a free box before ftyp.',
     'C07': ' Where the text given has a reading of its own (integer literals) that reading must reach the media endpoint; time-of-day '
            'error positions must name the segment that contains the instant; text-valued options round-trip starting from the value.',
     'C08': ' The timing reference varies per option group (incl. durations whose double is not a whole number of seconds); thorough: '
            'Apalache checks the single-state clauses over unbounded integers.',
     'C10': ' A refused init request for a stored file is a violation; manifests of every mode with DRM selections are requested before '
-           'and between the init requests (history independence); every system with every subset of locations.',
+           'and between the init requests (history independence); every system with every subset of locations. A stream whose key row was deleted after indexing (two known findings describe the unchanged behaviour there).',
     'C11': ' The {cfgs} field of the parsed-back licence URL must name every key by its little-endian GUID; ClearKey ids of other '
-           'lengths and keys whose base64 uses "+" and "/".',
+           'lengths and keys whose base64 uses "+" and "/". The same PlayReady Object asked for again after the key of a key id was replaced.',
+    'C09': ' Patch sessions on a stream with option defaults of its own, spelling out values equal to the global defaults.',
     'C12': ' Fractional Period durations; multi-period manifests with DRM selections (fallback to clear files of the Period\'s own stream).',
     'C14': ' Round trips for all 256 segmentation types with and without duration / delivery restrictions.',
     'C15': ' The second client\'s CSRF cookie is a near-copy of the first one\'s; used tokens return in equivalent percent-encodings; HEAD '
-           'requests carry GET\'s parameter variants.',
+           'requests carry GET\'s parameter variants. An account created on the primary key of a deleted media account is swept as a lesser role.',
     'C16': ' Every /time/<method> route and the ends of the accepted integer range in the grid; failure count 0.',
     'C17': ' Key ids written in several spellings (rows identified by the 128-bit value).',
     'C19': ' A sweep of the microsecond field of date-times, scale_timedelta over deltas up to 400 days, the template filters.',
